@@ -719,3 +719,64 @@ def path_bases(p, is_source, ks, zero_tests=True, fmt_args=True):
                 if has_src(a) and not is_use(a) and a[0] in ("bin", "field", "call", "cast"):
                     bases.add(strip(a))
     return bases
+
+
+# ---- dominating guards of an index site ----------------------------------------------------------------------------------------
+def _back_slice(mir, copies_unused, start_locals, through_calls=False):
+    """locals the start locals are computed from (flow-insensitive; assignments, casts, arithmetic, aggregates, field reads; call results are leaves
+    unless through_calls)"""
+    defs = {}
+    for b in mir["blocks"]:
+        if b.get("cleanup"):
+            continue
+        for st in b["s"]:
+            if st["k"] == "assign":
+                pls = []
+                _places_of(st["rv"], pls)
+                defs.setdefault(st["pl"]["l"], set()).update(p["l"] for p in pls)
+                for p in pls:
+                    for e in p["p"]:
+                        if isinstance(e, list) and e[0] == "i":
+                            defs[st["pl"]["l"]].add(e[1])
+        t = b["t"]
+        if through_calls and t["k"] == "call" and t.get("dest"):
+            pls = []
+            _places_of(t["args"], pls)
+            defs.setdefault(t["dest"]["l"], set()).update(p["l"] for p in pls)
+    seen = set(start_locals)
+    st = list(start_locals)
+    while st:
+        x = st.pop()
+        for y in defs.get(x, ()):
+            if y not in seen:
+                seen.add(y)
+                st.append(y)
+    return seen
+
+
+def index_site_guards(P, fn, bi):
+    """number of dominating decisions (switch terminators) whose discriminant is computed from data that the index expression or the indexed
+    value at block bi of fn is also computed from (flow-insensitive backward slices through assignments and calls)"""
+    mir = P.fn(fn)["mir"]
+    cfg = P.cfg(fn)
+    t = mir["blocks"][bi]["t"]
+    pls = []
+    if t["k"] == "call":
+        _places_of(t["args"], pls)
+    elif t["k"] == "assert":
+        _places_of({k: v for k, v in t.items() if k in ("idx", "len", "cond")}, pls)
+    start = set(p["l"] for p in pls)
+    sl = _back_slice(mir, None, start, through_calls=True)
+    sl = {l for l in sl if l > mir["argc"] or l in start} | {l for l in start}
+    n = 0
+    for d in range(len(mir["blocks"])):
+        if d == bi or d not in cfg.reach or not cfg.dominates(d, bi):
+            continue
+        td = mir["blocks"][d]["t"]
+        if td["k"] != "switch" or td["discr"]["k"] not in ("copy", "move"):
+            continue
+        dl = _back_slice(mir, None, {td["discr"]["pl"]["l"]}, through_calls=True)
+        dl = {l for l in dl if l > mir["argc"]}
+        if dl & sl:
+            n += 1
+    return n
